@@ -144,6 +144,27 @@ theorem execution_readonly_partial :
   rw [List.all_eq_true] at h1 h2 h3
   exact ⟨h1, fun e he => by simpa using h2 e he, h3⟩
 
+/-- **No step reachable from the per-thread API writes a process-wide table (partial).**  Over the regenerated call graph
+(roots: every non-static member function of `XalanTransformer` — constructor, `transform`/`doTransform`, `compileStylesheet`,
+`parseSource`, `installExternalFunction`, …; edges through `XalanTransformer`, `XSLTProcessorEnvSupportDefault`,
+`XPathEnvSupportDefault`, constructors/destructors of their objects included): every reachable function that so much as
+mentions a process-wide variable (`XPathEnvSupportDefault::s_externalFunctions`, `XPath::s_functions`, the message loader, the
+init counters, …) is listed and classified as a read.  A forwarder that reaches `installExternalFunctionGlobal` from
+`doTransform` adds an unclassified entry and this stops checking.  `_partial`: the call graph is restricted to those three
+classes (what `doTransform` does through `XSLTEngineImpl` and the execution contexts is covered by the const-execution
+entries and by the ThreadSanitizer runs with per-transformer extension functions), and it is extracted by regular expressions. -/
+theorem transform_touches_no_process_table_partial :
+    ∀ e ∈ C07_Share.table, e.kind = Kind.transformTouch → classify e = some Guard.readOnlyUse := by
+  have h : C07_Share.table.all (fun e => e.kind != Kind.transformTouch || classify e == some Guard.readOnlyUse) = true := by
+    decide +kernel
+  rw [List.all_eq_true] at h
+  intro e he hk
+  have := h e he
+  simpa [hk] using this
+
+/-- non-vacuity: the call graph does reach process-wide state (the read of `s_emptyInputSource` in `transform`) -/
+example : C07_Share.table.any (fun e => e.kind == Kind.transformTouch) = true := by decide +kernel
+
 /-- table-level form of the discipline `race_free` needs -/
 theorem tableMachine_writesOnlySync (m : Mode) (hm : racyEntries m = []) :
     ∀ progs : List (List Access), (∀ p ∈ progs, Conforms m p) →
